@@ -44,6 +44,9 @@ func (d *recDB) GetIPInfo(ip net.IP) (ipinfo.IPInfo, error) {
 		return ipinfo.IPInfo{CountryCode: "BR", ASN: ipinfo.ASN{Number: 64512, Organization: "Org"}}, nil
 	case "nocountry":
 		return ipinfo.IPInfo{ASN: ipinfo.ASN{Number: 64512, Organization: "Org"}}, nil
+	case "error-partial":
+		// a database error together with a partly filled answer (one of two databases failed)
+		return ipinfo.IPInfo{CountryCode: "BR"}, errors.New("asn db failure")
 	}
 	return ipinfo.IPInfo{}, errors.New("db failure")
 }
@@ -157,7 +160,7 @@ func runLoc(ctx *engine.Ctx, lc locCase) {
 		want = []string{""}
 	case cls == "nonglobal":
 		want = []string{"XL"}
-	case lc.DB == "error":
+	case lc.DB == "error", lc.DB == "error-partial":
 		want, consult = []string{"XD"}, true
 	case lc.DB == "nocountry":
 		want, consult = []string{"ZZ"}, true
@@ -188,7 +191,7 @@ func locCases() []locCase {
 	var out []locCase
 	hosts := []string{"93.184.216.34", "8.8.8.8", "10.0.0.1", "192.168.1.1", "100.64.0.1", "127.0.0.1", "127.8.9.10", "0.0.0.0", "169.254.1.1", "224.0.0.1", "239.1.2.3", "255.255.255.255",
 		"2606:4700::1111", "2001:db8::1", "fd00::1", "::1", "::", "fe80::1", "febf::ffff", "ff02::1", "ff0e::1", "::ffff:93.184.216.34", "::ffff:127.0.0.1", "::ffff:10.0.0.1"}
-	dbs := []string{"disabled", "hit", "nocountry", "error"}
+	dbs := []string{"disabled", "hit", "nocountry", "error", "error-partial"}
 	for _, db := range dbs {
 		for _, h := range hosts {
 			hp := net.JoinHostPort(h, "4242")
